@@ -5,9 +5,12 @@ VARIABLES tid, l
 Ev == Traces[tid][l]
 Init == tid \in 1..Len(Traces) /\ l = 1 /\ TLCSet(tid, 1)
 G(e) == [n \in 1..Len(e.g) |-> [tag |-> e.g[n].tag, kids |-> e.g[n].kids, failing |-> e.g[n].failing]]
-Ok(e) == LET x == Expected(Apply(G(e), e.ovs), e.deps) IN
-         /\ x.fail = e.got.fail
-         /\ ~x.fail => x.vals = e.got.vals
+Ok(e) == IF "decl" \in DOMAIN e
+         THEN e.accepted = DeclSupported(e.decl, e.actor)          \* a declaration: accepted iff supported
+         ELSE LET x == Expected(Apply(G(e), e.ovs), e.deps) IN
+              /\ x.fail = e.got.fail
+              /\ ~x.fail => x.vals = e.got.vals
+              /\ FailureIsUnanswered(e.got.fail, e.got.reported)
 Next == l <= Len(Traces[tid]) /\ Ok(Ev) /\ l' = l + 1 /\ UNCHANGED tid
 Spec == Init /\ [][Next]_<<tid, l>>
 Progress == TLCSet(tid, IF TLCGet(tid) < l THEN l ELSE TLCGet(tid))
